@@ -39,6 +39,7 @@ static void rp(res_t *r, void *p, size_t n, int own) {   /* pointer result with 
     r->failed = p == NULL;
     if (!p) strcpy(r->s, "NULL"); else { char *o = r->s; o += sprintf(o, "%zu:", n); vc_hex(o, p, n < 24 ? n : 24); if (own) free(p); }
 }
+static void rfmt_(res_t *r, const char *fmt, ...) { va_list ap; va_start(ap, fmt); vsnprintf(r->s, sizeof r->s, fmt, ap); va_end(ap); }
 static void radd(res_t *r, const char *fmt, ...) { size_t l = strlen(r->s); va_list ap; va_start(ap, fmt); vsnprintf(r->s + l, sizeof r->s - l, fmt, ap); va_end(ap); }
 
 typedef void (*opfn_t)(void *c, int a, int b, res_t *r);
@@ -78,7 +79,7 @@ static void t_getstr(void *c, int a, int b, res_t *r) { qtreetbl_t *t = c; char 
 static void t_getnull(void *c, int a, int b, res_t *r) { qtreetbl_t *t = c; (void)a; (void)b; rp(r, t->get(t, NULL, NULL, true), 0, 1); }
 static void t_remove(void *c, int a, int b, res_t *r) { qtreetbl_t *t = c; rb(r, b ? t->removeobj(t, KS[a], strlen(KS[a]) + 1) : t->remove(t, KS[a])); }
 static void t_removenull(void *c, int a, int b, res_t *r) { qtreetbl_t *t = c; (void)a; (void)b; rb(r, t->remove(t, NULL)); }
-static void t_walkop(void *c, int a, int b, res_t *r) { (void)a; t_walk(c, b, r); }
+static void t_walkop(void *c, int a, int b, res_t *r) { if (a == 9) { rb(r, ((qtreetbl_t *)c)->getnext(c, NULL, b)); r->failed = 0; return; } t_walk(c, b, r); }
 static void t_minmax(void *c, int a, int b, res_t *r) { qtreetbl_t *t = c; (void)b; size_t ns = 0; errno = 0; void *p = a ? t->find_max(t, &ns) : t->find_min(t, &ns); int e = errno; rp(r, p, p ? ns : 0, 1); if (!p && e == ENOENT) r->failed = 0; }
 static void t_nearest(void *c, int a, int b, res_t *r) { qtreetbl_t *t = c; errno = 0; qtreetbl_obj_t o = t->find_nearest(t, KS[a], strlen(KS[a]) + 1, b); int e = errno; r->failed = (o.name == NULL && e != ENOENT) || (b && o.name && o.datasize && !o.data); sprintf(r->s, "%s=%.*s", o.name ? (char *)o.name : "NULL", (int)(o.data ? o.datasize : 0), o.data ? (char *)o.data : ""); if (b) { free(o.name); free(o.data); } }
 static void t_nearestnull(void *c, int a, int b, res_t *r) { qtreetbl_t *t = c; (void)a; (void)b; qtreetbl_obj_t o = t->find_nearest(t, NULL, 0, true); rb(r, o.name != NULL); }
@@ -88,7 +89,7 @@ static void t_debug(void *c, int a, int b, res_t *r) { (void)b; rb(r, ((qtreetbl
 static void t_lockunlock(void *c, int a, int b, res_t *r) { (void)a; (void)b; qtreetbl_t *t = c; t->lock(t); t->unlock(t); rb(r, 1); }
 static void t_setcmp(void *c, int a, int b, res_t *r) { (void)a; (void)b; ((qtreetbl_t *)c)->set_compare(c, qtreetbl_byte_cmp); rb(r, 1); }
 static void t_suffix(void *c, char *out) { qtreetbl_t *t = c; res_t r; char *p = out; p += sprintf(p, "%d", t->putstr(t, "n", "nv")); p += sprintf(p, "%d", t->putstr(t, "a", "a2")); for (int i = 0; i < 5; i++) { char *s = t->getstr(t, KS[i], true); p += sprintf(p, "%s,", s ? s : "-"); free(s); } p += sprintf(p, "%d", t->remove(t, "b")); t_walk(t, 1, &r); p += sprintf(p, "[%s]", r.s); t_digest(t, p); }
-static fop_t T_OPS[80]; static int T_NOPS;
+static fop_t T_OPS[96]; static int T_NOPS;
 static void t_build(void) {
     int n = 0;
 #define ADD(tab, lab, fnname, fun, A, B) tab[n++] = (fop_t){lab, fnname, fun, A, B}
@@ -97,7 +98,7 @@ static void t_build(void) {
     for (int k = 0; k < 5; k += 2) for (int b = 0; b < 4; b++) ADD(T_OPS, b & 2 ? (b & 1 ? "getobj(newmem)" : "getobj") : (b & 1 ? "get(newmem)" : "get"), b & 2 ? "qtreetbl_getobj" : "qtreetbl_get", t_get, k, b);
     ADD(T_OPS, "getstr", "qtreetbl_getstr", t_getstr, 0, 0); ADD(T_OPS, "getstr(newmem)", "qtreetbl_getstr", t_getstr, 1, 1); ADD(T_OPS, "get(NULL name)", "qtreetbl_get", t_getnull, 0, 0);
     for (int k = 0; k < 5; k++) { ADD(T_OPS, "remove", "qtreetbl_remove", t_remove, k, 0); } ADD(T_OPS, "removeobj", "qtreetbl_removeobj", t_remove, 1, 1); ADD(T_OPS, "remove(NULL)", "qtreetbl_remove", t_removenull, 0, 0);
-    ADD(T_OPS, "getnext walk", "qtreetbl_getnext", t_walkop, 0, 0); ADD(T_OPS, "getnext walk(newmem)", "qtreetbl_getnext", t_walkop, 0, 1);
+    ADD(T_OPS, "getnext walk", "qtreetbl_getnext", t_walkop, 0, 0); ADD(T_OPS, "getnext walk(newmem)", "qtreetbl_getnext", t_walkop, 0, 1); ADD(T_OPS, "getnext(NULL cursor)", "qtreetbl_getnext", t_walkop, 9, 0);
     ADD(T_OPS, "find_min", "qtreetbl_find_min", t_minmax, 0, 0); ADD(T_OPS, "find_max", "qtreetbl_find_max", t_minmax, 1, 0);
     for (int k = 0; k < 5; k += 2) for (int b = 0; b < 2; b++) ADD(T_OPS, b ? "find_nearest(newmem)" : "find_nearest", "qtreetbl_find_nearest", t_nearest, k, b);
     ADD(T_OPS, "find_nearest(NULL)", "qtreetbl_find_nearest", t_nearestnull, 0, 0);
@@ -118,7 +119,7 @@ static void h_walk(qhashtbl_t *t, int nm, res_t *r) { qhashtbl_obj_t o; memset(&
 static void h_put(void *c, int a, int b, res_t *r) { qhashtbl_t *t = c; switch (b) { case 0: rb(r, t->put(t, KS[a], "w2", 3)); break; case 1: rb(r, t->putstr(t, KS[a], "w2")); break; case 2: rb(r, t->putstrf(t, KS[a], "w%d", 2)); break; case 3: rb(r, t->putint(t, KS[a], 12345)); break; case 4: rb(r, t->put(t, NULL, "x", 2)); break; case 5: rb(r, t->putstr(t, KS[a], NULL)); break; } }
 static void h_get(void *c, int a, int b, res_t *r) { qhashtbl_t *t = c; size_t sz = 0; if (b < 2) { void *d = t->get(t, KS[a], &sz, b); rp(r, d, d ? sz : 0, b); } else if (b == 2) { char *d = t->getstr(t, KS[a], true); rp(r, d, d ? strlen(d) + 1 : 0, 1); } else if (b == 3) { rn(r, t->getint(t, KS[a]), 0); } else rp(r, t->get(t, NULL, NULL, true), 0, 1); }
 static void h_remove(void *c, int a, int b, res_t *r) { qhashtbl_t *t = c; rb(r, b ? t->remove(t, NULL) : t->remove(t, KS[a])); }
-static void h_walkop(void *c, int a, int b, res_t *r) { (void)a; h_walk(c, b, r); }
+static void h_walkop(void *c, int a, int b, res_t *r) { if (a == 9) { rb(r, ((qhashtbl_t *)c)->getnext(c, NULL, b)); r->failed = 0; return; } h_walk(c, b, r); }
 static void h_misc(void *c, int a, int b, res_t *r) { qhashtbl_t *t = c; (void)b; switch (a) { case 0: rn(r, t->size(t), 0); break; case 1: t->clear(t); rb(r, 1); break; case 2: rb(r, t->debug(t, NULL)); r->failed = 0; break; case 3: rb(r, t->debug(t, devnull)); break; case 4: t->lock(t); t->unlock(t); rb(r, 1); break; } }
 static void h_suffix(void *c, char *out) { qhashtbl_t *t = c; res_t r; char *p = out; p += sprintf(p, "%d%d", t->putstr(t, "n", "nv"), t->putstr(t, "a", "a2")); for (int i = 0; i < 5; i++) { char *s = t->getstr(t, KS[i], true); p += sprintf(p, "%s,", s ? s : "-"); free(s); } p += sprintf(p, "%d", t->remove(t, "b")); h_walk(t, 1, &r); p += sprintf(p, "[%s]", r.s); h_digest(t, p); }
 static fop_t H_OPS[64]; static int H_NOPS;
@@ -129,7 +130,7 @@ static void h_build(void) {
     for (int k = 0; k < 5; k += 2) { ADD(H_OPS, "get", "qhashtbl_get", h_get, k, 0); ADD(H_OPS, "get(newmem)", "qhashtbl_get", h_get, k, 1); ADD(H_OPS, "getstr(newmem)", "qhashtbl_getstr", h_get, k, 2); ADD(H_OPS, "getint", "qhashtbl_getint", h_get, k, 3); }
     ADD(H_OPS, "get(NULL name)", "qhashtbl_get", h_get, 0, 4);
     for (int k = 0; k < 5; k++) ADD(H_OPS, "remove", "qhashtbl_remove", h_remove, k, 0); ADD(H_OPS, "remove(NULL)", "qhashtbl_remove", h_remove, 0, 1);
-    ADD(H_OPS, "getnext walk", "qhashtbl_getnext", h_walkop, 0, 0); ADD(H_OPS, "getnext walk(newmem)", "qhashtbl_getnext", h_walkop, 0, 1);
+    ADD(H_OPS, "getnext walk", "qhashtbl_getnext", h_walkop, 0, 0); ADD(H_OPS, "getnext walk(newmem)", "qhashtbl_getnext", h_walkop, 0, 1); ADD(H_OPS, "getnext(NULL cursor)", "qhashtbl_getnext", h_walkop, 9, 0);
     ADD(H_OPS, "size", "qhashtbl_size", h_misc, 0, 0); ADD(H_OPS, "clear", "qhashtbl_clear", h_misc, 1, 0); ADD(H_OPS, "debug(NULL)", "qhashtbl_debug", h_misc, 2, 0); ADD(H_OPS, "debug", "qhashtbl_debug", h_misc, 3, 0); ADD(H_OPS, "lock+unlock", "qhashtbl_lock qhashtbl_unlock", h_misc, 4, 0);
     H_NOPS = n;
 }
@@ -149,12 +150,16 @@ static void lt_walk(qlisttbl_t *t, const char *name, int nm, res_t *r) { qlisttb
 static void lt_put(void *c, int a, int b, res_t *r) { qlisttbl_t *t = c; switch (b) { case 0: rb(r, t->put(t, KS[a], "w2", 3)); break; case 1: rb(r, t->putstr(t, KS[a], "w2")); break; case 2: rb(r, t->putstrf(t, KS[a], "w%d", 2)); break; case 3: rb(r, t->putint(t, KS[a], 12345)); break; case 4: rb(r, t->put(t, NULL, "x", 2)); break; case 5: rb(r, t->put(t, KS[a], NULL, 0)); break; } }
 static void lt_get(void *c, int a, int b, res_t *r) { qlisttbl_t *t = c; size_t sz = 0; if (b < 2) { void *d = t->get(t, KS[a], &sz, b); rp(r, d, d ? sz : 0, b); } else if (b == 2) { char *d = t->getstr(t, KS[a], true); rp(r, d, d ? strlen(d) + 1 : 0, 1); } else if (b == 3) rn(r, t->getint(t, KS[a]), 0); else rp(r, t->get(t, NULL, NULL, true), 0, 1); }
 static void lt_getmulti(void *c, int a, int b, res_t *r) { qlisttbl_t *t = c; size_t n = 99; errno = 0; qlisttbl_data_t *d = t->getmulti(t, KS[a], b, &n); int e = errno; r->failed = (d == NULL && e == ENOMEM); sprintf(r->s, "%s n=%zu ", d ? "arr" : "NULL", n); if (d) { for (size_t i = 0; i < n && i < 8; i++) radd(r, "%.*s,", (int)d[i].size, (char *)d[i].data); t->freemulti(d); } }
-static void lt_remove(void *c, int a, int b, res_t *r) { qlisttbl_t *t = c; if (b == 0) rn(r, t->remove(t, KS[a]), 0); else if (b == 1) rn(r, t->remove(t, NULL), 0); else if (b == 2) rb(r, t->removeobj(t, NULL)); else { qlisttbl_obj_t o; memset(&o, 0, sizeof o); if (t->getnext(t, &o, KS[a], false)) rb(r, t->removeobj(t, &o)); else { rb(r, 0); r->failed = 0; } } }
+static void lt_remove(void *c, int a, int b, res_t *r) { qlisttbl_t *t = c; if (b == 0) rn(r, t->remove(t, KS[a]), 0); else if (b == 1) rn(r, t->remove(t, NULL), 0); else if (b == 2) rb(r, t->removeobj(t, NULL));
+    else if (b == 4) { r->failed = 0; if (t->size(t) != 0) { strcpy(r->s, "n/a"); return; } qlisttbl_obj_t o; memset(&o, 0, sizeof o); int r1 = t->removeobj(t, &o); rfmt_(r, "zeroed-cursor:%d", r1); }   /* only on an empty table: elsewhere a zeroed cursor is not a valid argument */
+    else if (b == 5) { qlisttbl_obj_t o; memset(&o, 0, sizeof o); int n = 0; while (t->getnext(t, &o, NULL, false)) n++; int r1 = n ? t->removeobj(t, &o) : -1, r2 = n ? t->removeobj(t, &o) : -1; rfmt_(r, "stale-cursor:%d,%d", r1, r2); r->failed = 0; }
+    else if (b == 6) { rb(r, t->getnext(t, NULL, NULL, false)); r->failed = 0; }
+    else { qlisttbl_obj_t o; memset(&o, 0, sizeof o); if (t->getnext(t, &o, KS[a], false)) rb(r, t->removeobj(t, &o)); else { rb(r, 0); r->failed = 0; } } }
 static void lt_walkop(void *c, int a, int b, res_t *r) { lt_walk(c, a < 5 ? KS[a] : NULL, b, r); }
 static void lt_misc(void *c, int a, int b, res_t *r) { qlisttbl_t *t = c; (void)b; switch (a) { case 0: rn(r, t->size(t), 0); break; case 1: t->sort(t); rb(r, 1); break; case 2: t->clear(t); rb(r, 1); break; case 3: rb(r, t->debug(t, NULL)); r->failed = 0; break; case 4: rb(r, t->debug(t, devnull)); break; case 5: t->lock(t); t->unlock(t); rb(r, 1); break;
     case 6: rb(r, t->save(t, NULL, '=', true)); r->failed = 0; break; case 7: rb(r, t->save(t, lt_path, '=', true)); break; case 8: rn(r, t->load(t, "/nonexistent/dir/file", '=', true), 0); break; case 9: { ssize_t n = t->load(t, lt_loadpath, '=', true); rn(r, n, n < 0); break; } } }
 static void lt_suffix(void *c, char *out) { qlisttbl_t *t = c; res_t r; char *p = out; p += sprintf(p, "%d%d", t->putstr(t, "n", "nv"), t->putstr(t, "a", "a3")); for (int i = 0; i < 5; i++) { char *s = t->getstr(t, KS[i], true); p += sprintf(p, "%s,", s ? s : "-"); free(s); } p += sprintf(p, "%zu", t->remove(t, "b")); lt_walk(t, NULL, 1, &r); p += sprintf(p, "[%s]", r.s); lt_digest(t, p); }
-static fop_t LT_OPS[80]; static int LT_NOPS;
+static fop_t LT_OPS[96]; static int LT_NOPS;
 static void lt_build(void) {
     int n = 0;
     for (int k = 0; k < 5; k += 2) { ADD(LT_OPS, "put", "qlisttbl_put", lt_put, k, 0); ADD(LT_OPS, "putstr", "qlisttbl_putstr", lt_put, k, 1); ADD(LT_OPS, "putstrf", "qlisttbl_putstrf", lt_put, k, 2); ADD(LT_OPS, "putint", "qlisttbl_putint", lt_put, k, 3); }
@@ -162,6 +167,7 @@ static void lt_build(void) {
     for (int k = 0; k < 5; k += 2) { ADD(LT_OPS, "get", "qlisttbl_get", lt_get, k, 0); ADD(LT_OPS, "get(newmem)", "qlisttbl_get", lt_get, k, 1); ADD(LT_OPS, "getstr(newmem)", "qlisttbl_getstr", lt_get, k, 2); ADD(LT_OPS, "getint", "qlisttbl_getint", lt_get, k, 3); ADD(LT_OPS, "getmulti", "qlisttbl_getmulti qlisttbl_freemulti", lt_getmulti, k, 0); ADD(LT_OPS, "getmulti(newmem)", "qlisttbl_getmulti qlisttbl_freemulti", lt_getmulti, k, 1); }
     ADD(LT_OPS, "get(NULL name)", "qlisttbl_get", lt_get, 0, 4);
     for (int k = 0; k < 5; k++) ADD(LT_OPS, "remove", "qlisttbl_remove", lt_remove, k, 0); ADD(LT_OPS, "remove(NULL)", "qlisttbl_remove", lt_remove, 0, 1); ADD(LT_OPS, "removeobj(NULL)", "qlisttbl_removeobj", lt_remove, 0, 2); ADD(LT_OPS, "removeobj(found)", "qlisttbl_removeobj", lt_remove, 0, 3); ADD(LT_OPS, "removeobj(found)", "qlisttbl_removeobj", lt_remove, 2, 3);
+    ADD(LT_OPS, "removeobj(zeroed cursor)", "qlisttbl_removeobj", lt_remove, 0, 4); ADD(LT_OPS, "removeobj(same cursor twice)", "qlisttbl_removeobj", lt_remove, 0, 5); ADD(LT_OPS, "getnext(NULL cursor)", "qlisttbl_getnext", lt_remove, 0, 6);
     ADD(LT_OPS, "getnext walk", "qlisttbl_getnext", lt_walkop, 5, 0); ADD(LT_OPS, "getnext walk(newmem)", "qlisttbl_getnext", lt_walkop, 5, 1); ADD(LT_OPS, "getnext walk(name,newmem)", "qlisttbl_getnext", lt_walkop, 0, 1); ADD(LT_OPS, "getnext walk(absent name)", "qlisttbl_getnext", lt_walkop, 4, 1);
     const char *mn[] = {"size", "sort", "clear", "debug(NULL)", "debug", "lock+unlock", "save(NULL path)", "save", "load(missing file)", "load"};
     const char *mf[] = {"qlisttbl_size", "qlisttbl_sort", "qlisttbl_clear", "qlisttbl_debug", "qlisttbl_debug", "qlisttbl_lock qlisttbl_unlock", "qlisttbl_save", "qlisttbl_save", "qlisttbl_load", "qlisttbl_load"};
@@ -190,7 +196,7 @@ static void l_add(void *c, int a, int b, res_t *r) { qlist_t *l = c; switch (b) 
 static void l_get(void *c, int a, int b, res_t *r) { qlist_t *l = c; size_t sz = 0; void *d = b < 2 ? l->getat(l, a, &sz, b) : b == 2 ? l->getfirst(l, &sz, true) : l->getlast(l, &sz, true); rp(r, d, d ? sz : 0, b != 0); }
 static void l_pop(void *c, int a, int b, res_t *r) { qlist_t *l = c; size_t sz = 0; void *d = b == 0 ? l->popat(l, a, &sz) : b == 1 ? l->popfirst(l, &sz) : l->poplast(l, &sz); rp(r, d, d ? sz : 0, 1); }
 static void l_rem(void *c, int a, int b, res_t *r) { qlist_t *l = c; rb(r, b == 0 ? l->removeat(l, a) : b == 1 ? l->removefirst(l) : l->removelast(l)); }
-static void l_walkop(void *c, int a, int b, res_t *r) { (void)a; l_walk(c, b, r); }
+static void l_walkop(void *c, int a, int b, res_t *r) { if (a == 9) { rb(r, ((qlist_t *)c)->getnext(c, NULL, b)); r->failed = 0; return; } l_walk(c, b, r); }
 static void l_misc(void *c, int a, int b, res_t *r) { qlist_t *l = c; (void)b; size_t sz = 0; switch (a) { case 0: rn(r, l->size(l), 0); break; case 1: rn(r, l->datasize(l), 0); break; case 2: l->reverse(l); rb(r, 1); break; case 3: l->clear(l); rb(r, 1); break;
     case 4: { errno = 0; void *d = l->toarray(l, &sz); int e = errno; rp(r, d, d ? sz : 0, 1); if (!d && e == ENOENT) r->failed = 0; break; } case 5: { errno = 0; char *d = l->tostring(l); int e = errno; rp(r, d, d ? strlen(d) + 1 : 0, 1); if (!d && e == ENOENT) r->failed = 0; break; }
     case 6: rb(r, l->debug(l, NULL)); r->failed = 0; break; case 7: rb(r, l->debug(l, devnull)); break; case 8: rn(r, l->setsize(l, 1), 0); break; case 9: l->lock(l); l->unlock(l); rb(r, 1); break; } }
@@ -216,7 +222,7 @@ static void l_build(void) {
         ADD(L_OPS, "addfirst", "qlist_addfirst", l_add, 0, 0); ADD(L_OPS, "addlast", "qlist_addlast", l_add, 0, 1); ADD(L_OPS, "addlast(NULL)", "qlist_addlast", l_add, 0, 3); ADD(L_OPS, "addat(size 0)", "qlist_addat", l_add, 0, 4);
         for (int i = -5; i <= 5; i++) { ADD(L_OPS, "addat", "qlist_addat", l_add, i, 2); ADD(L_OPS, "getat", "qlist_getat", l_get, i, 0); ADD(L_OPS, "getat(newmem)", "qlist_getat", l_get, i, 1); ADD(L_OPS, "popat", "qlist_popat", l_pop, i, 0); ADD(L_OPS, "removeat", "qlist_removeat", l_rem, i, 0); }
         ADD(L_OPS, "getfirst(newmem)", "qlist_getfirst", l_get, 0, 2); ADD(L_OPS, "getlast(newmem)", "qlist_getlast", l_get, 0, 3); ADD(L_OPS, "popfirst", "qlist_popfirst", l_pop, 0, 1); ADD(L_OPS, "poplast", "qlist_poplast", l_pop, 0, 2); ADD(L_OPS, "removefirst", "qlist_removefirst", l_rem, 0, 1); ADD(L_OPS, "removelast", "qlist_removelast", l_rem, 0, 2);
-        ADD(L_OPS, "getnext walk", "qlist_getnext", l_walkop, 0, 0); ADD(L_OPS, "getnext walk(newmem)", "qlist_getnext", l_walkop, 0, 1);
+        ADD(L_OPS, "getnext walk", "qlist_getnext", l_walkop, 0, 0); ADD(L_OPS, "getnext walk(newmem)", "qlist_getnext", l_walkop, 0, 1); ADD(L_OPS, "getnext(NULL cursor)", "qlist_getnext", l_walkop, 9, 0);
         const char *mn[] = {"size", "datasize", "reverse", "clear", "toarray", "tostring", "debug(NULL)", "debug", "setsize", "lock+unlock"};
         const char *mf[] = {"qlist_size", "qlist_datasize", "qlist_reverse", "qlist_clear", "qlist_toarray", "qlist_tostring", "qlist_debug", "qlist_debug", "qlist_setsize", "qlist_lock qlist_unlock"};
         for (int i = 0; i < 10; i++) ADD(L_OPS, mn[i], mf[i], l_misc, i, 0);
@@ -253,7 +259,7 @@ static void v_get(void *c, int a, int b, res_t *r) { qvector_t *v = c; void *d =
 static void v_set(void *c, int a, int b, res_t *r) { qvector_t *v = c; rb(r, b == 0 ? v->setat(v, a, &VX) : b == 1 ? v->setfirst(v, &VX) : v->setlast(v, &VX)); }
 static void v_pop(void *c, int a, int b, res_t *r) { qvector_t *v = c; void *d = b == 0 ? v->popat(v, a) : b == 1 ? v->popfirst(v) : v->poplast(v); rp(r, d, d ? 4 : 0, 1); }
 static void v_rem(void *c, int a, int b, res_t *r) { qvector_t *v = c; rb(r, b == 0 ? v->removeat(v, a) : b == 1 ? v->removefirst(v) : v->removelast(v)); }
-static void v_walkop(void *c, int a, int b, res_t *r) { (void)a; v_walk(c, b, r); }
+static void v_walkop(void *c, int a, int b, res_t *r) { if (a == 9) { rb(r, ((qvector_t *)c)->getnext(c, NULL, b)); r->failed = 0; return; } v_walk(c, b, r); }
 static void v_misc(void *c, int a, int b, res_t *r) { qvector_t *v = c; size_t sz = 0; switch (a) { case 0: rn(r, v->size(v), 0); break; case 1: rb(r, v->resize(v, b)); break; case 2: { errno = 0; void *d = v->toarray(v, &sz); int e = errno; rp(r, d, d ? sz * 4 : 0, 1); if (!d && e == ENOENT) r->failed = 0; break; }
     case 3: { errno = 0; v->reverse(v); rb(r, errno != ENOMEM); break; } case 4: v->clear(v); rb(r, 1); break; case 5: rb(r, v->debug(v, NULL)); r->failed = 0; break; case 6: rb(r, v->debug(v, devnull)); break; case 7: v->lock(v); v->unlock(v); rb(r, 1); break; } }
 static void v_suffix(void *c, char *out) { qvector_t *v = c; res_t r; char *p = out; int x = 0x4e4e4e4e; p += sprintf(p, "%d%d", v->addlast(v, &x), v->addat(v, 1, &x)); char *s = v->popfirst(v); p += sprintf(p, "%.4s,", s ? s : "-"); free(s); v->reverse(v); v_walk(v, 1, &r); p += sprintf(p, "[%s]", r.s); v_digest(v, p); }
@@ -264,7 +270,7 @@ static void v_build(void) {
     for (int i = -5; i <= 5; i++) { ADD(V_OPS, "addat", "qvector_addat", v_add, i, 2); ADD(V_OPS, "getat", "qvector_getat", v_get, i, 0); ADD(V_OPS, "getat(newmem)", "qvector_getat", v_get, i, 1); ADD(V_OPS, "setat", "qvector_setat", v_set, i, 0); ADD(V_OPS, "popat", "qvector_popat", v_pop, i, 0); ADD(V_OPS, "removeat", "qvector_removeat", v_rem, i, 0); }
     ADD(V_OPS, "getfirst(newmem)", "qvector_getfirst", v_get, 0, 2); ADD(V_OPS, "getlast(newmem)", "qvector_getlast", v_get, 0, 3); ADD(V_OPS, "setfirst", "qvector_setfirst", v_set, 0, 1); ADD(V_OPS, "setlast", "qvector_setlast", v_set, 0, 2);
     ADD(V_OPS, "popfirst", "qvector_popfirst", v_pop, 0, 1); ADD(V_OPS, "poplast", "qvector_poplast", v_pop, 0, 2); ADD(V_OPS, "removefirst", "qvector_removefirst", v_rem, 0, 1); ADD(V_OPS, "removelast", "qvector_removelast", v_rem, 0, 2);
-    ADD(V_OPS, "getnext walk", "qvector_getnext", v_walkop, 0, 0); ADD(V_OPS, "getnext walk(newmem)", "qvector_getnext", v_walkop, 0, 1);
+    ADD(V_OPS, "getnext walk", "qvector_getnext", v_walkop, 0, 0); ADD(V_OPS, "getnext walk(newmem)", "qvector_getnext", v_walkop, 0, 1); ADD(V_OPS, "getnext(NULL cursor)", "qvector_getnext", v_walkop, 9, 0);
     ADD(V_OPS, "size", "qvector_size", v_misc, 0, 0); for (int m = 0; m <= 5; m++) ADD(V_OPS, "resize", "qvector_resize", v_misc, 1, m);
     ADD(V_OPS, "toarray", "qvector_toarray", v_misc, 2, 0); ADD(V_OPS, "reverse", "qvector_reverse", v_misc, 3, 0); ADD(V_OPS, "clear", "qvector_clear", v_misc, 4, 0); ADD(V_OPS, "debug(NULL)", "qvector_debug", v_misc, 5, 0); ADD(V_OPS, "debug", "qvector_debug", v_misc, 6, 0); ADD(V_OPS, "lock+unlock", "qvector_lock qvector_unlock", v_misc, 7, 0);
     V_NOPS = n;
